@@ -295,7 +295,8 @@ fn judge(c: &ConcCase, env: &Env, log: &[Ev], info: &sched::RunInfo) -> Result<J
                 classes.push("refused_already_connected");
             }
             Err(e) => {
-                ensure!(!covered, "conc.wrong_refusal", "thread {} was refused with {e:?} while the role was held throughout (AnotherInstanceIsAlreadyConnected expected): {}", a.t, dump());
+                // (which refusal wins when the role is held and the parameters mismatch is not specified)
+                ensure!(!covered || is_incompatible(e), "conc.wrong_refusal", "thread {} was refused with {e:?} while the role was held throughout (AnotherInstanceIsAlreadyConnected expected): {}", a.t, dump());
                 if e == ZeroCopyCreationError::IsBeingCleanedUp || e == ZeroCopyCreationError::InitializationNotYetFinalized {
                     ensure!(others_overlap, "conc.spurious_cleanup_refusal", "thread {} was refused with {e:?} although no other operation overlapped the attach: {}", a.t, dump());
                     classes.push("refused_being_cleaned_up");
